@@ -368,8 +368,11 @@ def fromvalue_rule(chk, P, prefix, types):
             b = bs[0]
             bodies = [b] + P.closures_of(b)
             dc = [c for x in bodies for c in x.calls(normal_only=True) if c.callee.get("name") == "downcast_ref"]
-            pr = [c for x in bodies for c in x.calls(normal_only=True) if (c.callee.get("path") or "") == "emit_core::value::Value::<'v>::parse"
-                  or ((c.callee.get("path") or "").startswith("emit_core::value::Value") and c.callee.get("name") == "parse")]
+            # the text-form fallback: Value::parse, or the type's own Display-buffering text parser applied to the value
+            pr = [c for x in bodies for c in x.calls(normal_only=True)
+                  if ((c.callee.get("path") or "").startswith("emit_core::value::Value") and c.callee.get("name") == "parse")
+                  or (c.callee.get("name") in ("try_from_hex", "try_from_str") and c.args and
+                      (("param", 1) in roots(x.origin(c.args[0])) or any(k == "capture" and v == "value" for k, v in roots(x.origin(c.args[0])))))]
             if not dc:
                 return False, "%s::from_value does not try the typed value first (downcast_ref)" % ty, [], b.span
             if not pr:
